@@ -424,6 +424,17 @@ def _tag(E):
     return "directed" if E.directed else "undirected"
 
 
+def _sv(o):
+    """Cheap hashable-ish digest of an outcome for the behaviour signature."""
+    if o[0] == "exc":
+        return o[1][:40]
+    v = o[1]
+    try:
+        return np.round(np.asarray(v, dtype=float), 9).tolist()
+    except (TypeError, ValueError):
+        return str(_plain(v))[:60]
+
+
 def _plain(x):
     from pyunicorn.core import Network
     if isinstance(x, Network):
@@ -440,7 +451,7 @@ def _judge(E, name, lists, lead, attr, has_la, oracle, viol, excluded, sig):
         excluded[str(u)] = excluded.get(str(u), 0) + 1
         return "excl", None
     got = _call(E, name, lists, lead, attr, has_la)
-    sig.append((pat, brief(got, 60)))
+    sig.append((pat, _sv(got)))
     if _not_implemented(got):
         excluded["library: not implemented"] = \
             excluded.get("library: not implemented", 0) + 1
@@ -481,6 +492,134 @@ def _orders(L):
 
 
 # ---------------------------------------------------------------------------
+# one root cause, one key: a measure that is a documented function of another
+# measure of the class is not reported a second time when that other measure
+# already fails in the same case and the two library results are consistent
+# with each other; the link-attribute variant of a call is not reported when
+# the plain variant fails as well.
+
+
+def _rows_closeness(B, n_total, internal):
+    rows = np.asarray(B, dtype=float)
+    M = rows.shape[1]
+    repl = (rows.shape[0] - 1) if internal else (n_total - 1)
+    norm = (M - 1) if internal else M
+    out = []
+    for r in rows:
+        tot = sum(repl if x == R.INF else x for x in r)
+        out.append(norm / tot if tot != 0 else 0.0)
+    return out
+
+
+def _rows_apl(B, internal):
+    rows = np.asarray(B, dtype=float)
+    vals = [x for i, r in enumerate(rows) for j, x in enumerate(r)
+            if x != R.INF and not (internal and i == j)]
+    return sum(vals) / len(vals)
+
+
+DERIVED = {
+    "average_cross_closeness": (
+        ["cross_closeness"],
+        lambda E, lib, a, L: np.mean(lib("cross_closeness", a))),
+    "total_cross_degree": (
+        ["cross_degree"], lambda E, lib, a, L: np.mean(lib("cross_degree"))),
+    "cross_degree_density": (
+        ["cross_degree"],
+        lambda E, lib, a, L: np.asarray(lib("cross_degree")) / len(L[1])),
+    "cross_degree": (
+        ["cross_outdegree", "cross_indegree"],
+        lambda E, lib, a, L: np.asarray(lib("cross_outdegree", a)) + (
+            np.asarray(lib("cross_indegree", a)) if E.directed else 0)),
+    "cross_global_clustering": (
+        ["cross_local_clustering"],
+        lambda E, lib, a, L: np.mean(lib("cross_local_clustering"))),
+    "cross_global_clustering_sparse": (
+        ["cross_local_clustering_sparse"],
+        lambda E, lib, a, L: np.mean(lib("cross_local_clustering_sparse"))),
+    "global_efficiency": (
+        ["local_efficiency"],
+        lambda E, lib, a, L: 1 / np.mean(lib("local_efficiency", a))),
+    "number_cross_links": (
+        ["cross_adjacency"],
+        lambda E, lib, a, L: np.sum(lib("cross_adjacency"))),
+    "cross_link_density": (
+        ["number_cross_links"],
+        lambda E, lib, a, L: lib("number_cross_links") / (
+            len(L[0]) * len(L[1]))),
+    "nsi_cross_mean_degree": (
+        ["nsi_cross_degree"],
+        lambda E, lib, a, L: R.wmean(lib("nsi_cross_degree"), L[0], E.w)),
+    "nsi_cross_edge_density": (
+        ["nsi_cross_mean_degree"],
+        lambda E, lib, a, L: lib("nsi_cross_mean_degree") / sum(
+            E.w[q] for q in L[1])),
+    "nsi_cross_global_clustering": (
+        ["nsi_cross_local_clustering"],
+        lambda E, lib, a, L: R.wmean(lib("nsi_cross_local_clustering"),
+                                     L[0], E.w)),
+    "cross_closeness": (
+        ["cross_path_lengths"],
+        lambda E, lib, a, L: _rows_closeness(lib("cross_path_lengths", a),
+                                             E.n, False)),
+    "local_efficiency": (
+        ["cross_path_lengths"],
+        lambda E, lib, a, L: np.mean(
+            1 / np.asarray(lib("cross_path_lengths", a), dtype=float),
+            axis=1)),
+    "cross_average_path_length": (
+        ["cross_path_lengths"],
+        lambda E, lib, a, L: _rows_apl(lib("cross_path_lengths", a), False)),
+    "internal_link_density": (
+        ["number_internal_links"],
+        lambda E, lib, a, L: lib("number_internal_links") / (
+            len(L[0]) * (len(L[0]) - 1) / (1 if E.directed else 2))),
+    "internal_closeness": (
+        ["internal_path_lengths"],
+        lambda E, lib, a, L: _rows_closeness(lib("internal_path_lengths", a),
+                                             E.n, True)),
+    "internal_average_path_length": (
+        ["internal_path_lengths"],
+        lambda E, lib, a, L: _rows_apl(lib("internal_path_lengths", a),
+                                       True)),
+}
+
+
+def _fold(E, res, vidx, viol, lists, stats):
+    """Remove the violations of `viol` that repeat another one of the same
+    case (see above).  res: (name, attr) -> (status, outcome); vidx: (name,
+    attr) -> index into viol."""
+    def lib(name, attr=None):
+        st, got = res.get((name, attr), (None, None))
+        if got is None or got[0] != "ok":
+            raise KeyError(name)
+        return got[1]
+
+    def failed(name, attr):
+        key = (name, attr) if (name, attr) in res else (name, None)
+        return res.get(key, ("",))[0] == "viol"
+    drop = set()
+    for (name, attr), (st, got) in res.items():
+        if st != "viol" or (name, attr) not in vidx:
+            continue
+        if attr and failed(name, None) and (name, None) in res:
+            drop.add(vidx[(name, attr)])
+            continue
+        d = DERIVED.get(name)
+        if d and got[0] == "ok" and any(failed(x, attr) for x in d[0]):
+            try:
+                val = d[1](E, lib, attr, lists)
+            except Exception:   # noqa - inputs unusable: keep the report
+                continue
+            if equal(got[1], val):
+                drop.add(vidx[(name, attr)])
+    if drop:
+        stats["violations folded into the violation of the measure they "
+              "are derived from"] = len(drop)
+    return [v for i, v in enumerate(viol) if i not in drop]
+
+
+# ---------------------------------------------------------------------------
 # families
 
 
@@ -489,7 +628,7 @@ def fam_cross(case):
     E = Env(n, directed, mask, wk)
     viol, excluded, sig = [], {}, []
     ev = 0
-    res = {}
+    res, vidx = {}, {}
     for name, kind, lead, has_la in specs():
         if kind != "pair":
             continue
@@ -501,7 +640,10 @@ def fam_cross(case):
             st, got = _judge(E, name, (L1, L2), lead, attr, has_la, oracle,
                              viol, excluded, sig)
             res[(name, attr)] = (st, got)
+            if st == "viol":
+                vidx[(name, attr)] = len(viol) - 1
             ev += st != "excl"
+    viol = _fold(E, res, vidx, viol, (L1, L2), E.stats)
     # compiled == _sparse (reported only when not explained by a value
     # violation of one of the two)
     for name in [k for k, _ in res if k.endswith("_sparse")]:
@@ -599,7 +741,7 @@ def _derived_internal(E, name, L, attr, has_la, viol, sig):
     else:
         exp = B.sum(axis=1) + (B.sum(axis=0) if E.directed else 0)
     got = _call(E, name, (L,), False, attr, has_la)
-    sig.append((pat, brief(got, 60)))
+    sig.append((pat, _sv(got)))
     if not (got[0] == "ok" and equal(got[1], exp)):
         viol.append(V("%s.%s:%s:%s" % (CLS, pat, "raises" if got[0] == "exc"
                                        else "value", _tag(E)),
@@ -612,6 +754,7 @@ def fam_internal(case):
     E = Env(n, directed, mask, wk)
     viol, excluded, sig = [], {}, []
     ev = 0
+    res, vidx = {}, {}
     for name, kind, lead, has_la in specs():
         if kind != "single":
             continue
@@ -629,9 +772,13 @@ def fam_internal(case):
                 _derived_internal(E, name, L, attr, has_la, viol, sig)
                 ev += 1
                 continue
-            st, _ = _judge(E, name, (L,), lead, attr, has_la, oracle,
-                           viol, excluded, sig)
+            st, got = _judge(E, name, (L,), lead, attr, has_la, oracle,
+                             viol, excluded, sig)
+            res[(name, attr)] = (st, got)
+            if st == "viol":
+                vidx[(name, attr)] = len(viol) - 1
             ev += st != "excl"
+    viol = _fold(E, res, vidx, viol, (L,), E.stats)
     return {"viol": viol, "evals": ev, "excluded": excluded,
             "stats": E.stats, "trivial": False, "sig": str(sig)}
 
@@ -755,12 +902,32 @@ def fam_whole(case):
             continue
         a, b = outcome(f_in), outcome(f_net)
         ev += 1
-        sig.append((name, brief(a, 50)))
+        sig.append((name, _sv(a)))
         if a[0] == "ok" and b[0] == "ok" and equal(a[1], b[1]):
             continue
         if a[0] == "exc" and b[0] == "exc":
             excluded["whole-set limit: both raise"] = \
                 excluded.get("whole-set limit: both raise", 0) + 1
+            continue
+        base, attr = name.split("[")[0], (ATTR if "[" in name else None)
+        allv = list(range(n))
+        try:
+            if base in PAIR:
+                exp = PAIR[base](E, allv, allv, attr)
+            elif callable(SINGLE.get(base)):
+                exp = SINGLE[base](E, allv, attr)
+            else:
+                exp = None
+        except Undefined:
+            exp = None
+        if exp is not None and a[0] == "ok" and not equal(a[1], exp):
+            # the InteractingNetworks value itself is off its definition:
+            # same key as in the cross / internal families
+            if attr and any(v["key"].startswith("%s.%s:value" % (CLS, base))
+                            for v in viol):
+                continue
+            viol.append(V("%s.%s:value:%s" % (CLS, name, _tag(E)),
+                          "lists %s" % [allv, allv], a[1], exp))
             continue
         viol.append(V("%s.%s:whole-set!=Network:%s" % (CLS, name, _tag(E)),
                       "both groups = all %d nodes" % n, brief(a), brief(b)))
